@@ -15,6 +15,7 @@ import (
 func init() {
 	replayers["subscription-algebra"] = func(t *testing.T, raw json.RawMessage) { TestC03_SubscriptionAlgebra(t) }
 	replayers["wait-race"] = func(t *testing.T, raw json.RawMessage) { TestC06_WaitCloseRace(t) }
+	replayers["counts-at-the-top"] = func(t *testing.T, raw json.RawMessage) { TestC04_CountsAtTheTop(t) }
 	replayers["ratelimit-stress"] = func(t *testing.T, raw json.RawMessage) { TestC20_NativeStress(t) }
 	replayers["bridge-exact"] = func(t *testing.T, raw json.RawMessage) {
 		var c struct {
